@@ -2,17 +2,52 @@
 Values.tla defines DeclaredDefault per field kind and Construct(cls, K); MC_Values enumerates every subset of
 fields overridden by keyword (kw = "subsets"); replay compares every attribute of Cls(**K), checks that two
 constructions share no mutable object, and that pack() is the encoding of those values."""
+import json
+
 from lib import common, valuesprofile as vp
 from bind import replay_packet as rp
 
-OWNED = {"C19_Construct", "C19_Visible", "conf_construct", "C13_shared_default", "C02_Layout", "ctor_error"}
+OWNED = {"C19_Construct", "C19_Visible", "conf_construct", "conf_pack_outcome", "conf_out", "C13_shared_default", "C02_Layout", "ctor_error"}
+
+
+def prototype_part(v, res):
+    """The user keeps the packet INSTANCE handed to Ref(...) and changes it after the class statement, before anything was
+    constructed: a default-constructed packet still holds what was declared (the class took its own copy when it was defined)."""
+    from bind import declgen, observe
+    n = 0
+    with declgen.Scratch() as sc:
+        for di, d in enumerate(res.univ):
+            if not any(f["k"] == "Ref" and f.get("over") for f in d["prog"][d["root"]]["fields"]):
+                continue
+            spec_default = [c["V"] for c in res.emits if c["d"] == di + 1 and c["K"] == []]
+            if not spec_default:
+                continue
+            for gi, gen in enumerate((rp.GEN_OFF, None)):
+                mod = sc.load(d["prog"], gen, nonce=("proto", di, gi), local=True)
+                for name in [x for x in dir(mod) if x.startswith("PROTO_")]:
+                    proto = getattr(mod, name)
+                    for fname, _f, _p, _u in type(proto).get_fields():
+                        try:
+                            setattr(proto, fname, 99)
+                        except Exception:
+                            pass
+                obj = getattr(mod, d["root"])()
+                got = observe.abs_packet(obj)["vals"]
+                n += 1
+                v.count_case(("proto", di, gi), nontrivial=True)
+                if got != spec_default[0]:
+                    v.violation("C19_Construct", "after the user changed the prototype instance they had passed to Ref(...), a default-constructed "
+                                "packet holds %s, declared %s" % (json.dumps(got)[:300], json.dumps(spec_default[0])[:300]),
+                                {"declaration": d["prog"], "gen": gen})
+    v.cov["traces_validated_against_impl"] += n
 
 
 def run(tier, seed):
     v = common.Verdict("C19", tier, seed)
     common.bind_repo()
     gens = [rp.GEN_OFF, None]
-    vp.exhaustive_part(v, "U_C19", ["Inv_C02_Layout"], gens, OWNED)
+    res = vp.exhaustive_part(v, "U_C19", ["Inv_C02_Layout"], gens, OWNED)
+    prototype_part(v, res)
     v.cov["exhaustive"] = True
     v.cov["rule"] = ("TLC enumerates U_C19 (every field kind and default form, nested prototypes with their own defaults and "
                      "overrides) x every subset of fields overridden by keyword x override values; replay on real classes; "
